@@ -9,7 +9,13 @@ from . import vlib
 def setup():
     from . import translate
     translate.regenerate_all(verbose=True)
-    ok, log = vlib.make([])
+    import json
+    claims = json.load(open(os.path.join(vlib.VERIF, "MANIFEST.json")))
+    props = [c["property_id"] for c in claims["checks"]]
+    targets = []
+    for p in props:
+        targets += ["theories/%s/Corr.vo" % p, "theories/Props/%s.vo" % p]
+    ok, log = vlib.make(targets)
     print(log[-3000:])
     if not ok:
         print("SETUP FAILED: Coq development does not build")
